@@ -22,12 +22,12 @@ const (
 
 var (
 	keyPool = []string{"host", "zone", "a", "b", "c", "ab", "k1", "k2", "k3", "ключ", "键", "é",
-		"a b", "a,b", "a=b", "k|x", `a\b`, `"q"`, " lead", "trail ", "region-with-long-key"}
+		"a b", "a,b", "a=b", "k|x", `a\b`, `"q"`, " lead", "trail ", "region-with-long-key", `k\\`, `\\,k`}
 	valPool = []string{"1", "2", "x", "y", "web-01", "us-east-1", "значение", "值", "v v", "v,v", "v=v",
-		`v\v`, `v\`, "v|v", `"`, "=", ",", "a-rather-long-tag-value-0123456789"}
+		`v\v`, `v\`, "v|v", `"`, "=", ",", "a-rather-long-tag-value-0123456789", `C:\\`, `p\\,q`, `\\ srv\\\\`}
 	namePool = []string{"cpu", "mem.used", "disk|io", "http requests", "net,rx", "метрика", "指标", `win\perf`,
-		"#hash", "x=y", "a", "system.cpu.load.avg.1m"}
-	fieldPool = []string{"f", "v", "usage", "Histogram", "HistogramSum", "__bucket_", "__bucket_5", "温度", "a b", "a,b", "a=b", "idle"}
+		"#hash", "x=y", "a", "system.cpu.load.avg.1m", `svc\\`, `a\\,b\=c`}
+	fieldPool = []string{"f", "v", "usage", "Histogram", "HistogramSum", "__bucket_", "__bucket_5", "温度", "a b", "a,b", "a=b", "idle", `f\\=x`, `io\\`}
 	nsPool    = []string{"default-ns", "ns1", "t|1", "租户", "ns-eleven00"}
 )
 
@@ -209,7 +209,10 @@ func genCompound(t *rapid.T) *compound {
 type env struct {
 	now           int64
 	behind, ahead int64
-	series        [][]kv
+	// interval (ms) of the database the rows are routed by; when > 0 a share of the in-window
+	// timestamps is placed on and next to the boundaries of the calendar families (familyOf)
+	interval int64
+	series   [][]kv
 	// multi-tenant request (see genTenancy): when tenants != nil every metric of the request
 	// carries its own namespace drawn from tenants ("" = the metric carries none), and most
 	// metric names come from the small pool names, so that rows of the same name and of
@@ -315,7 +318,23 @@ func genTimestamp(t *rapid.T, e *env) (ts int64, outside bool, class string) {
 		return e.now + rapid.Int64Range(-guard, guard).Draw(t, "nearNow")/2, false, "ts=in"
 	}
 	// offsets from now are drawn, never absolute times: draws must not depend on the clock
-	return e.now + rapid.Int64Range(lo-e.now, hi-e.now).Draw(t, "inWinOffset"), false, "ts=in"
+	ts = e.now + rapid.Int64Range(lo-e.now, hi-e.now).Draw(t, "inWinOffset")
+	if e.interval > 0 && k >= 7 {
+		// first / last millisecond of a family and the milliseconds next to them. The draws do not
+		// depend on the clock; whether the placed timestamp is used does (it must stay inside the
+		// guarded window), which changes no later draw.
+		if b := atFamilyEdge(e.interval, ts, rapid.IntRange(0, 5).Draw(t, "edge")); lo <= b && b <= hi {
+			return b, false, "ts=in,family-edge"
+		}
+	}
+	return ts, false, "ts=in"
+}
+
+// atFamilyEdge moves ts to an edge of its calendar family: 0 first ms, 1 last ms, 2 first ms of
+// the next family, 3 last ms of the previous one, 4 second ms, 5 last but one.
+func atFamilyEdge(intervalMs, ts int64, edge int) int64 {
+	first, last := familyOf(intervalMs, ts)
+	return [...]int64{first, last, last + 1, first - 1, first + 1, last - 1}[edge]
 }
 
 var invalidKinds = []string{"empty-name", "no-field", "empty-tag-key", "empty-tag-value", "unspecified", "nan", "+inf", "-inf",
@@ -441,19 +460,55 @@ func breakMetric(t *rapid.T, m *am) {
 
 // ---- making a metric expressible in a format (pure function, no draws) --------------------
 
-func clean(s string) string {
-	s = strings.NewReplacer("\\", "/", "\n", "_", "\r", "_", "\"", "'").Replace(s)
-	return s
+// dialectRepair makes a literal token expressible in lindb's dialect of the line protocol: a
+// run of an odd number of backslashes directly before a special character of the token kind, or
+// at the end of the token, gets one more backslash (see oddBackslashRuns for why these two shapes
+// cannot be carried; they are out of scope, counted). Everything else - even runs before
+// separators and at the end, any run before an ordinary character - is kept as generated.
+func dialectRepair(group, s, specials string) string {
+	if strings.IndexByte(s, '\\') < 0 {
+		return s
+	}
+	var b strings.Builder
+	run := 0
+	for i := 0; i < len(s); i++ {
+		c := s[i]
+		if c == '\\' {
+			run++
+			b.WriteByte(c)
+			continue
+		}
+		if run%2 == 1 && strings.IndexByte(specials, c) >= 0 {
+			b.WriteByte('\\')
+			if group != "" {
+				ev.Class(group, "excluded_out_of_scope_influx_odd_backslash_run_before_special", 1)
+			}
+		}
+		run = 0
+		b.WriteByte(c)
+	}
+	if run%2 == 1 {
+		b.WriteByte('\\')
+		if group != "" {
+			ev.Class(group, "excluded_out_of_scope_influx_odd_backslash_run_at_token_end", 1)
+		}
+	}
+	return b.String()
+}
+
+func clean(group, s, specials string) string {
+	s = strings.NewReplacer("\n", "_", "\r", "_", "\"", "'").Replace(s)
+	return dialectRepair(group, s, specials)
 }
 
 // forInflux returns a variant of m the line protocol can express with the same meaning.
-func forInflux(m *am, rc *reqCtx) *am {
-	o := &am{Name: clean(m.Name), TS: m.TS}
+func forInflux(group string, m *am, rc *reqCtx) *am {
+	o := &am{Name: clean(group, m.Name, lpNameSpecials), TS: m.TS}
 	if strings.HasPrefix(o.Name, "#") {
 		o.Name = "h" + o.Name
 	}
 	for _, t := range m.Tags {
-		o.Tags = append(o.Tags, kv{clean(t.K), clean(t.V)})
+		o.Tags = append(o.Tags, kv{clean(group, t.K, lpKeySpecials), clean(group, t.V, lpKeySpecials)})
 	}
 	if max := rc.Limits.MaxTagsPerMetric; max > 0 && len(o.Tags)+len(rc.Enriched) > max {
 		keep := max - len(rc.Enriched)
@@ -466,7 +521,7 @@ func forInflux(m *am, rc *reqCtx) *am {
 		o.Name = "n" // a line starting with a blank means something else
 	}
 	for _, f := range m.Fields {
-		n := clean(f.Name)
+		n := clean(group, f.Name, lpKeySpecials)
 		if strings.TrimSpace(n) == "" {
 			n = "f" + n
 		}
@@ -498,7 +553,7 @@ func fit(group string, ms []*am, outside []bool, rc *reqCtx, f format) ([]*am, [
 		m = excludeKnownShapes(group, m, rc, f)
 		switch {
 		case f == fInflux:
-			m = excludeKnownShapes(group, forInflux(m, rc), rc, f)
+			m = excludeKnownShapes(group, forInflux(group, m, rc), rc, f)
 			if !expressible(m, rc, f) {
 				panic(fmt.Sprintf("harness: forInflux produced an inexpressible metric: %+v", m))
 			}
